@@ -2,7 +2,7 @@
 //! without clap/ctrl-c/bootstrap sleeps), workloads, history, oracles.
 use crate::bucket::Storage;
 use crate::config::NodeConfig;
-use crate::controller::{parse_wal_key, NodeController};
+use crate::controller::{parse_wal_key, wal_key, NodeController};
 use crate::metadata::{Metadata, MetadataCmd};
 use crate::rpc::{InternalOp, InternalResp};
 use octopii::rpc::{RequestPayload, ResponsePayload};
@@ -124,6 +124,10 @@ impl walrus_rust::wal::verif::Hooks for DHooks {
         }
         let node = tokio::sim::current_label();
         let step = tokio::sim::step();
+        if op.starts_with("lease_") {
+            lease_event(node, op, topic, step);
+            return;
+        }
         hist(HEv { step, kind: "write".into(), client: 0, node, op: op.into(), topic: topic.into(), payload: String::new(), resp: String::new(), opid: n as u64 });
         check_write(node, topic, step);
     }
@@ -133,6 +137,111 @@ thread_local! {
     static IS_MAIN: RefCell<bool> = const { RefCell::new(false) };
 }
 
+// ---------------------------------------------------------------------------
+// Lease provenance (facts for C23 findings only; nothing here raises a finding by itself).
+// The guarded hook lines in distributed-walrus report: "lease_snapshot" (NodeController::update_leases has just
+// computed the expected lease set from the node's applied metadata), "lease_installed" (Storage::update_leases has
+// made the cached lease set equal to what it was given), "lease_ok" (Storage::ensure_lease accepted a write).
+// ---------------------------------------------------------------------------
+#[derive(Default, Clone)]
+struct LeaseNode {
+    /// per task: the lease set its last snapshot computed, and whether that equalled the applied metadata
+    snap_by_task: BTreeMap<u64, (BTreeSet<String>, bool)>,
+    installed: BTreeSet<String>,
+    /// keys in `installed` that the snapshot it was installed from did not contain
+    installed_extra: BTreeSet<String>,
+    installed_snapshot_ok: bool,
+    installed_any: bool,
+    /// accepted lease checks not yet matched with a write: key -> labels in order
+    pending_ok: BTreeMap<String, std::collections::VecDeque<&'static str>>,
+}
+
+thread_local! {
+    static LEASES: RefCell<BTreeMap<u64, LeaseNode>> = const { RefCell::new(BTreeMap::new()) };
+    static LEASE_TOPICS: RefCell<BTreeSet<String>> = const { RefCell::new(BTreeSet::new()) };
+}
+
+fn lease_event(node: u64, op: &str, arg: &str, _step: u64) {
+    let task = tokio::sim::current_task();
+    let set = |a: &str| -> BTreeSet<String> { a.split('\n').filter(|s| !s.is_empty()).map(|s| s.to_string()).collect() };
+    match op {
+        "lease_snapshot" => {
+            let got = set(arg);
+            // what the node's applied metadata says right now
+            let meta = METAS.with(|m| m.borrow().get(&node).cloned());
+            let mut ok = true;
+            if let Some(meta) = meta {
+                let mut want = BTreeSet::new();
+                let mut topics: BTreeSet<String> = LEASE_TOPICS.with(|t| t.borrow().clone());
+                for k in got.iter() {
+                    if let Some((t, _)) = parse_wal_key(k) {
+                        topics.insert(t);
+                    }
+                }
+                for t in topics {
+                    if let Some(st) = meta.get_topic_state(&t) {
+                        if st.leader_node == node {
+                            want.insert(wal_key(&t, st.current_segment));
+                        }
+                    }
+                }
+                ok = want == got;
+            }
+            LEASES.with(|l| {
+                l.borrow_mut().entry(node).or_default().snap_by_task.insert(task, (got, ok));
+            });
+        }
+        "lease_installed" => {
+            let got = set(arg);
+            LEASES.with(|l| {
+                let mut l = l.borrow_mut();
+                let n = l.entry(node).or_default();
+                let (snap, ok) = n.snap_by_task.get(&task).cloned().unwrap_or((got.clone(), true));
+                n.installed_extra = got.difference(&snap).cloned().collect();
+                n.installed = got;
+                n.installed_snapshot_ok = ok;
+                n.installed_any = true;
+            });
+        }
+        "lease_ok" => {
+            LEASES.with(|l| {
+                let mut l = l.borrow_mut();
+                let n = l.entry(node).or_default();
+                let label = if !n.installed.contains(arg) {
+                    "accepted_without_lease"
+                } else if n.installed_extra.contains(arg) {
+                    "lease_kept_by_install"
+                } else if !n.installed_snapshot_ok {
+                    "lease_from_wrong_snapshot"
+                } else {
+                    "lease_held"
+                };
+                n.pending_ok.entry(arg.to_string()).or_default().push_back(label);
+            });
+        }
+        _ => {}
+    }
+}
+
+/// The lease check that let this write through: "lease_held" (the cached lease set legitimately contained the key:
+/// it came from a snapshot that matched the node's applied metadata when it was taken), or what was wrong with it.
+fn lease_label_for_write(node: u64, wal_key: &str) -> &'static str {
+    LEASES.with(|l| {
+        let mut l = l.borrow_mut();
+        let n = l.entry(node).or_default();
+        match n.pending_ok.get_mut(wal_key) {
+            Some(q) if !q.is_empty() => {
+                // concurrent appends to one key are serialised by the per-key mutex in an order that need not be the
+                // order of their lease checks: report the worst pending label, consume the oldest
+                let worst = q.iter().copied().find(|x| *x != "lease_held");
+                let first = q.pop_front().unwrap();
+                worst.unwrap_or(first)
+            }
+            _ => "no_lease_check",
+        }
+    })
+}
+
 /// C23: at the instant a node writes into a segment, that node's applied metadata must say the
 /// segment is open and owned by this node.
 fn check_write(node: u64, wal_key: &str, step: u64) {
@@ -140,20 +249,22 @@ fn check_write(node: u64, wal_key: &str, step: u64) {
     let meta = METAS.with(|m| m.borrow().get(&node).cloned());
     let Some(meta) = meta else { return };
     tokio::sim::stat("c23_writes_checked", 1);
+    let lease = lease_label_for_write(node, wal_key);
+    tokio::sim::stat(&format!("c23_lease_{}", lease), 1);
     if let Some(st) = meta.get_topic_state(&topic) {
         if st.current_segment > segment {
             finding(
                 "c23.write_after_seal_applied",
-                format!("step {}: node {} writes into {} although it has already applied the rollover that sealed segment {} (its metadata says current segment {})", step, node, wal_key, segment, st.current_segment),
-                &[("segments_behind", serde_json::json!(st.current_segment - segment))],
+                format!("step {}: node {} writes into {} although it has already applied the rollover that sealed segment {} (its metadata says current segment {}); lease check: {}", step, node, wal_key, segment, st.current_segment, lease),
+                &[("segments_behind", serde_json::json!(st.current_segment - segment)), ("lease_check", serde_json::json!(lease))],
             );
         }
         let owner = meta.segment_leader(&topic, segment);
         if st.current_segment >= segment && owner.is_some() && owner != Some(node) {
             finding(
                 "c23.write_into_foreign_segment",
-                format!("step {}: node {} writes into {} which its applied metadata assigns to node {:?}", step, node, wal_key, owner),
-                &[],
+                format!("step {}: node {} writes into {} which its applied metadata assigns to node {:?}; lease check: {}", step, node, wal_key, owner, lease),
+                &[("lease_check", serde_json::json!(lease))],
             );
         }
     }
